@@ -161,6 +161,15 @@ class StmtMixin:
             if want is not None and is_ref(want) and v.ty in ("pydict", "pyset", "pylist") and want[1] in models.CLASSES \
                     and (v.ty != "pylist" or want[1].startswith("list_")):
                 v = self.box(s, v, want)       # a container display bound to a variable declared as a heap container
+            elif want is not None and is_ref(want) and want[1].startswith("list_") and isinstance(v.ty, tuple) and v.ty[0] == "seq":
+                # a list value (e.g. the result of a comprehension) bound to a variable declared as a heap list: a fresh list object
+                d = self.alloc(s, want[1])
+                saved, self.spec_mode = self.spec_mode, 1
+                try:
+                    self.write_field(s, d, want[1], "items", self.coerce(v, models.CLASSES[want[1]]["fields"]["items"]), getattr(node, "lineno", None))
+                finally:
+                    self.spec_mode = saved
+                v = d
             elif want is not None and v.ty != want:
                 self.cast_guard(st, v, want, getattr(node, "lineno", None))
                 v = self.coerce(v, want) if not (v.ty == "pylist" and not v.py and isinstance(want, tuple) and want[0] == "seq") \
